@@ -222,7 +222,45 @@ def part(p, maxlen, qmaxlen):
     return st
 
 
+def part_seq(p):
+    """all modes one after the other in ONE process (both orders): a result
+    memoised under an earlier default rounding mode must not be served"""
+    wname, order = p
+    st = Stats()
+    modes = list(O.MODES) if order == 'forward' else list(reversed(O.MODES))
+    w = make_world(wname)
+    lists = [[r] for r in RATIOS] + [['i:1', 'i:1'], ['i:1', 'i:2'],
+                                     ['i:1', 'i:1', 'i:1'], ['i:3', 'i:7'],
+                                     ['i:1'] * 4, ['i:3'] * 7,
+                                     ['F:1/3', 'F:1/3', 'D:0.5']]
+    for mode in modes:
+        O.set_mode(mode)
+        for sym, sym2, amounts in quantities(w, wname):
+            for x in amounts:
+                for ratios in lists:
+                    for disperse in (True, False):
+                        st.paths += 1
+                        res = run_alloc(w, sym, x, ratios, disperse, mode, st,
+                                        sym2)
+                        st.state((wname, sym, x, tuple(ratios), mode, 'seq'),
+                                 nontrivial=len(ratios) > 1)
+                        for sig, msg in res:
+                            st.violation(sig + ':mode-sequence', msg, {
+                                'world': wname, 'unit': sym,
+                                'amount': str(x), 'ratios': ratios,
+                                'disperse': disperse, 'mode': mode,
+                                'unit2': sym2,
+                                'after_modes': modes[:modes.index(mode)]})
+    return st
+
+
 def replay(case):
+    if case.get('after_modes'):
+        # the whole sequence is the case: replay the sequence part
+        order = 'forward' if case['after_modes'][0] == O.MODES[0] \
+            else 'reversed'
+        st = part_seq((case['world'], order))
+        return [(sig, msg) for sig, (n, msg, cs) in st.viol.items()]
     O.set_mode(case['mode'])
     w = make_world(case['world'])
     return run_alloc(w, case['unit'], F(case['amount']), case['ratios'],
@@ -241,6 +279,9 @@ def run(tier, seed):
     parts = [(wn, m) for wn in worlds for m in modes
              if not (wn == 'plain' and m != 'ROUND_HALF_EVEN')]
     total = pmap(part, parts, (maxlen, qmaxlen), fresh=True)
+    total.merge(pmap(part_seq, [(wn, o) for wn in worlds[1:]
+                                for o in ('forward', 'reversed')],
+                     fresh=True))
     total.sample({'world': 'money', 'unit': 'EUR', 'amount': '-1/10',
                   'ratios': ['i:1', 'i:1', 'i:7'], 'disperse': True,
                   'mode': modes[1]})
@@ -254,7 +295,9 @@ def run(tier, seed):
              f"(multiples of the unit's quantum, negative too) x all ratio "
              f"lists of length 1..{maxlen} over {{1,2,3,7,1/3,0.5}} plus "
              f"quantity-ratio lists of length 1..{qmaxlen} over 4 masses in "
-             "mixed units x disperse flag. distinct state = (world, unit, "
+             "mixed units x disperse flag; plus, per quantized world, all 8 "
+             "modes one after the other in one process (both orders) over a "
+             "reduced ratio alphabet. distinct state = (world, unit, "
              "amount, ratio list); non-trivial = more than one ratio",
         level_text="bounded exhaustive exploration; conservation, "
                    "immutability, grid and deviation invariants evaluated on "
